@@ -488,6 +488,8 @@ class NumExec:
             x_, lo, hi = N(a[0]), N(a[1]), N(a[2])
             return Num(xr.clip(x_.x, lo.x, hi.x), x_.data or lo.data or hi.data, False)
         if name == "nan_to_num":
+            if set(kw) - {"nan", "neginf", "posinf"} or len(a) != 1:
+                raise Unsupported(f"np.nan_to_num with arguments {sorted(kw)} (copy=False would alias the caller's array) at line {e.lineno}")
             x_ = N(a[0])
             g = lambda k, d: N(kw.get(k, d)).x
             return Num(xr.nan_to_num(x_.x, g("nan", 0.0), g("neginf", -1.7976931348623157e308), g("posinf", 1.7976931348623157e308)), x_.data, False)
